@@ -78,6 +78,11 @@ def main(tier: str) -> int:
     for _ in range(n):
         ln = rng.choice([0, 1, 2, 3, 5, 8, 13, 21, 40])
         s = "".join(rng.choice(CLASSES) for _ in range(rng.randint(0, ln)))
+        if rng.random() < 0.15:
+            # one long run of spaces (counts of two and three digits), at the start, inside or at the end
+            run_ = " " * rng.choice([9, 10, 11, 12, 15, 19, 20, 21, 99, 100, 101, 120])
+            at = rng.choice([0, len(s), rng.randint(0, len(s))])
+            s = s[:at] + run_ + s[at:]
         k = rng.randint(1, 4)
         cuts = sorted(rng.randint(0, len(s)) for _ in range(k - 1))
         chunks = [s[a:b] for a, b in zip([0] + cuts, cuts + [len(s)])]
